@@ -20,6 +20,7 @@ func checkC19(c *Ctx, r *Report) {
 	checkSampleGrid(c, r)
 	checkPerspective(c, r)
 	checkSampleGridForwarding(c, r)
+	checkSamplerRefusals(c, r)
 	checkBitMatrixGetGuard(c, r, "M-GETGUARD")
 	r.Note("not decided: floating-point accuracy of the transform; detectors' choice of the four points")
 }
@@ -316,7 +317,7 @@ func checkNudge(c *Ctx, r *Report) {
 // ---- sampling ----
 
 func checkSampleGrid(c *Ctx, r *Report) {
-	r.Rule("M-SAMPLE", "DefaultGridSampler.SampleGridWithTransform: every image.Get(px, py) is reached only after checkAndNudgePoints succeeded on the transformed row and after a guard that exits for px >= width or py >= height; the points fed to the transform are (x+0.5, y+0.5), the slice that is transformed is the one that is checked and the one the pixel coordinates are read from, and cell (x, y) receives the pixel read for pair x", 5)
+	r.Rule("M-SAMPLE", "DefaultGridSampler.SampleGridWithTransform: every image.Get(px, py) is reached only after checkAndNudgePoints succeeded on the transformed row and after a guard that exits for px >= width or py >= height; the points fed to the transform are (x+0.5, y+0.5), the slice that is transformed is the one that is checked and the one the pixel coordinates are read from, cell (x, y) receives the pixel read for pair x, and the only refusals are a dimension below 1, a row check-and-nudge rejects and a pixel beyond the image - none depends on the transform's coefficients", 6)
 	fd, p := c.funcDeclOf("common", "DefaultGridSampler.SampleGridWithTransform")
 	key := "common.DefaultGridSampler.SampleGridWithTransform"
 	if fd == nil {
@@ -1053,4 +1054,70 @@ func checkSampleGridForwarding(c *Ctx, r *Report) {
 		}
 	}
 	reportFold(r, c, "M-SAMPLEFWD", key, fd.Pos(), bad)
+}
+
+// M-SAMPLE (refusals): the sampler gives up only for the reasons the contract names
+func checkSamplerRefusals(c *Ctx, r *Report) {
+	fd, p := c.funcDeclOf("common", "DefaultGridSampler.SampleGridWithTransform")
+	key := "common.DefaultGridSampler.SampleGridWithTransform.refusals"
+	if fd == nil {
+		r.AnchorLost("M-SAMPLE", key, "method not found")
+		return
+	}
+	r.Analysed(key)
+	ps := paramObjs(p, fd)
+	if len(ps) != 4 {
+		r.Undecided("M-SAMPLE", key, c.pos(fd.Pos()), "signature changed")
+		return
+	}
+	var nudgeErr types.Object
+	for _, call := range findCalls(p, fd.Body, func(o types.Object) bool { return isFuncNamed(o, "common", "GridSampler_checkAndNudgePoints") }) {
+		if as, ok := enclosingStmt(fd.Body, call).(*ast.AssignStmt); ok && len(as.Lhs) == 1 {
+			nudgeErr = identObj(p, as.Lhs[0])
+		}
+	}
+	// every error return sits under a condition that mentions only: the two dimensions; the nudge error; the pixel
+	// coordinates read from the transformed points against the image size
+	bad := ""
+	n := 0
+	ast.Inspect(fd.Body, func(nd ast.Node) bool {
+		if _, isLit := nd.(*ast.FuncLit); isLit {
+			return false
+		}
+		rs, ok := nd.(*ast.ReturnStmt)
+		if !ok || len(rs.Results) != 2 || bad != "" {
+			return true
+		}
+		if id, isI := ast.Unparen(rs.Results[1]).(*ast.Ident); isI && id.Name == "nil" {
+			return true
+		}
+		n++
+		gi, _ := guardsOf(fd.Body, rs)
+		okWhy := false
+		for _, e := range gi.Enclosing {
+			ifs, isIf := e.Node.(*ast.IfStmt)
+			if !isIf {
+				continue
+			}
+			usesDims := usesIdent(p, ifs.Cond, ps[1]) || usesIdent(p, ifs.Cond, ps[2])
+			usesNudge := nudgeErr != nil && usesIdent(p, ifs.Cond, nudgeErr)
+			usesImage := usesIdent(p, ifs.Cond, ps[0])
+			usesTransform := usesIdent(p, ifs.Cond, ps[3])
+			if (usesDims || usesNudge || usesImage) && !usesTransform {
+				okWhy = true
+			}
+			if usesTransform {
+				okWhy = false
+				break
+			}
+		}
+		if !okWhy {
+			bad = "the refusal at " + c.pos(rs.Pos()) + " is not one of: a dimension below 1, a row that check-and-nudge rejects, a pixel beyond the image; a transform is not refused for its coefficients (a mirrored or rotated pair of quadrilaterals maps as well as any other)"
+		}
+		return true
+	})
+	if bad == "" && n < 3 {
+		bad = fmt.Sprintf("only %d refusals found, expected the dimension test, the nudge failure and the per-pixel guard", n)
+	}
+	r.Check(bad == "", "M-SAMPLE", key, c.pos(fd.Pos()), bad)
 }
